@@ -123,11 +123,13 @@ func (e *Engine) runHarness(cfg *HarnessCfg, pkg *ssa.Package) *HarnessResult {
 		Solver: e.solverKind, Params: cfg.Params,
 		Bounds: map[string]int{"unwind": cfg.Unwind, "maxdepth": cfg.MaxDepth, "maxpaths": cfg.MaxPaths, "query_timeout_ms": cfg.TimeoutMs}}
 	ctx := NewCtx()
+	ctx.factorSimp = cfg.FactorSimp
 	logPath := ""
 	if e.smtLog {
 		logPath = fmt.Sprintf("%s/%s.smt2", e.workDir, cfg.Name)
 	}
 	sol := NewSolver(e.solverKind, ctx, logPath)
+	sol.IncBudgetMs = cfg.IncBudgetMs
 	defer sol.Close()
 	ex := &Exec{prog: e.prog, ctx: ctx, sol: sol, cfg: cfg, pkg: pkg, eng: e, res: res,
 		funcsSeen: map[string]bool{}, modelsHit: map[string]bool{}, stubsHit: map[string]bool{}}
